@@ -7,6 +7,18 @@ HOOK_COMMITS = subprocess.run(['git','-C','/repo','log','--format=%h %s'],captur
 hooks = [l.split()[0] for l in HOOK_COMMITS if 'verif hook' in l]
 
 CLAIMED = {
+ 'C07': dict(
+   text="Deductive proof of no-panic (nil, bounds, type assertion, nil-map, division) obligations generated for every instruction of the request-decoding path (Parse, parseRequest, injectFile, IsBatchMode), the handler (queryHandler, its per-operation closure and reducer, Emit, emitError, getQueryers, parseIntrospectionQuery), error formatting and the plan post-processing, for arbitrary request bodies / multipart maps; plus ghost-state postconditions: exactly one status line per request, 422 iff Parse fails, 200 otherwise, invalid operations answered with data:null and >=1 error. Termination (hangs) and panics inside gqlparser / encoding/json / net/http are not decided.",
+   note="Assumed: library contracts listed in the evidence (LoadQuery, FormFile, json.Unmarshal, strings.*), callbacks (QueryerFactory) do not modify gateway state, modifies clauses marked assumed; planner internals below SequentialPlanner.Plan and the executor below Executor.Execute are covered only as far as their own contracts (see evidence 'functions_under_contract').",
+   ref="DESIGN.md §5 C07", technique="contract-based deductive verification (auto-generated safety obligations + ghost status contracts over go/ssa, z3+cvc5)"),
+ 'C08': dict(
+   text="Deductive proof that every return path of the per-operation closure yields a non-nil result carrying its own index and no error, that the reducer places by index and keeps the other slots (frame), and via the fold rule that N operations yield N filled slots with slot i holding operation i's result, for every completion order; Parse's single/batch shape establishes Emit's precondition. Independence is proved as a frame: the closure modifies only fresh objects, JSON payload maps, the plan cache and the ghost call counter. Interleavings of the concurrent closures are not decided (fold rule assumes the helper's contract).",
+   note="Assumed: AsyncMapReduce fold contract (C20 n/a); Planner/Executor implementations refine their interface contracts as far as verified (refinement obligations are part of the check); modifies clauses marked assumed in the evidence.",
+   ref="DESIGN.md §5 C08", technique="contract-based deductive verification (fold invariant over a set of completed items, frame conditions, z3+cvc5)"),
+ 'C10': dict(
+   text="Deductive proof that (a) on every path of the per-operation closure where the query does not validate, names an unknown operation or is ambiguous, the ghost downstream-call counter is unchanged and the result has data:null and >=1 error; (b) FormatError and ExtendErrorList preserve *Error values by pointer identity (hence message, extensions, path) for single errors and error lists, for all inputs. The passage of a service's error list from queryBatch up to the closure is covered only by these kernels (not a full chain).",
+   note="Assumed: LoadQuery / OperationList.ForName library contracts (ghost ValidQuery, LoadedDoc, OpNamed); QueryCalls ghost counts Queryer.Query invocations (Subscribe and the queryer factory are outside); no typed-nil *gqlerror.Error values.",
+   ref="DESIGN.md §5 C10", technique="contract-based deductive verification (ghost effect counter + frame, functional contracts with pointer identity, z3+cvc5)"),
  'C11': dict(
    text="Deductive proof, for all N, m>=1 and every completion order of the fan-out, of the functional contract of MultiOpQueryer.Query, its two closures, queryBatch and fetch: N results, result i answers request i, error => no partial result, chunk size <= m (slice bounds), over VCs generated from go/ssa of the working tree and discharged by z3/cvc5. The goroutine helper itself is an assumed fold contract (C20 n/a).",
    note="Assumed: AsyncMapReduce fold contract; protocol boundary Ans (reply element j answers request element j) at fetch/fetchFile; encoding/json, net/http; mathematical integers; generator + solvers.",
